@@ -239,4 +239,48 @@ def eraseDoc (d : Doc Weight) : Doc Rat :=
   { nSeats := d.nSeats, cands := d.cands, ballots := d.ballots.map (fun b => (b.1, b.2.val)), title := d.title }
 
 
+/-! ### where a comment starts (`_clean_line`, blt.py L233-241) — character level
+
+  The token model above takes lines as already cleaned.  This part models the cleaning itself: a `#` comment starts at
+  the first hash sign at or after the LAST double quote of the (stripped) line — at the first hash sign anywhere if
+  the line has no quote — and the line is cut there and right-stripped.  White space is Python's `str.strip()` set
+  restricted to ASCII (9-13, 28-32); other Unicode space characters are not modelled. -/
+
+def isWs (c : Char) : Bool :=
+  (9 ≤ c.val && c.val ≤ 13) || (28 ≤ c.val && c.val ≤ 32)
+
+def lstrip : List Char → List Char
+  | [] => []
+  | c :: t => if isWs c then lstrip t else c :: t
+
+def rstrip (l : List Char) : List Char := (lstrip l.reverse).reverse
+
+def strip (l : List Char) : List Char := rstrip (lstrip l)
+
+/-- `blt_line.rfind('"')`, if any -/
+def lastQuoteIdx : List Char → Option Nat
+  | [] => none
+  | c :: t => match lastQuoteIdx t with
+    | some i => some (i + 1)
+    | none => if c = '"' then some 0 else none
+
+/-- `blt_line[start:].find('#')` -/
+def hashIdx : List Char → Option Nat
+  | [] => none
+  | c :: t => if c = '#' then some 0 else (hashIdx t).map (· + 1)
+
+/-- the comment cut on a stripped line (L236-241) -/
+def cutComment (l : List Char) : List Char :=
+  let start := (lastQuoteIdx l).getD 0
+  match hashIdx (l.drop start) with
+  | none => l
+  | some k => rstrip (l.take (start + k))
+
+/-- `_clean_line` -/
+def cleanLineL (l : List Char) : List Char := cutComment (strip l)
+def cleanLine (s : String) : String := String.ofList (cleanLineL s.toList)
+
+/-- the line `_dump_strline` writes for a name or title (L87-88) -/
+def strLine (name : List Char) : List Char := '"' :: name ++ ['"']
+
 end VL.Blt
